@@ -505,11 +505,14 @@ func (g *Gen) RacSearch(repo, verif, unit string, o *Obligation, sv *Solver, tie
 		return rr
 	}
 	spec := g.specFor(fn)
-	if spec == nil {
-		rr.Note = "no contract"
-		return rr
-	}
 	pkg := fn.Pkg.Pkg
+	if spec == nil {
+		// a package-level custom harness can still stand in
+		if _, err := os.Stat(filepath.Join(verif, "rac", "custom", "pkg_"+pkg.Name()+".go.txt")); err != nil {
+			rr.Note = "no contract"
+			return rr
+		}
+	}
 	relDir := strings.TrimPrefix(strings.TrimPrefix(pkg.Path(), modPath), "/")
 	outDir := filepath.Join(verif, "replay", "rac", sanitize(unit))
 	os.MkdirAll(outDir, 0o755)
